@@ -1,0 +1,31 @@
+//go:build verif
+
+package ldap
+
+// Contracts for LDAP authentication (property C12), checked by /verif/govc.
+// Comment-only file: it adds nothing to any build.
+//
+// Bind callback: anonymous bind (empty name and password) succeeds without logging in; otherwise the
+// bind succeeds exactly when "name:password" is one of the configured credential strings, and only
+// then is the login state set. (LDAP has no wildcard entry: "*" is an ordinary string here.)
+//@ spec anon(binddn string, bindpw []byte) bool = len(binddn) == 0 && len(bindpw) == 0
+//
+//@ func (*ldapService).setHandlers$2
+//@   check frame
+//@   ensures [anon] anon(binddn, bindpw) ==> result && s.login == ""
+//@   ensures [decision] !anon(binddn, bindpw) ==> (result <==> (exists j int :: 0 <= j && j < len(s.Credentials) && s.Credentials[j] == concat(concat(binddn, runestr(58)), str(bindpw))))
+//@   ensures [login-set] !anon(binddn, bindpw) && result ==> s.login == binddn
+//@   ensures [login-keep] !result ==> s.login == old(s.login)
+//@   modifies addr(s.Server).login, ghost(gstr)
+//@   loop 1: invariant forall j int :: 0 <= j && j <= rangeindex ==> s.Credentials[j] != cred.gstr
+//@   loop 1: invariant s.login == old(s.login) && cred.gstr == concat(concat(binddn, runestr(58)), str(bindpw))
+//
+//@ func (Server).isLogin
+//@   check frame
+//@   ensures result == (s.login != "")
+//@   modifies nothing
+//
+//@ func (*ldapService).setHandlers$4
+//@   check frame
+//@   ensures result == (s.login != "")
+//@   modifies nothing
